@@ -245,6 +245,7 @@ func equalWords(a, b []uint64) bool {
 
 // programs for engine runs: mostly pass, fail on a value class, some skipping
 func (r *rng) engineProgram() *SX {
+	r.customFatal = 0
 	g := &progGen{r: r, kinds: map[string]kind{}}
 	var out []*SX
 	m := 1 + r.intn(3)
